@@ -101,6 +101,7 @@ package roaring
 //@   ensures forall k :: k != v / 65536 && cm(b, k) != nil && cm(b, v / 65536) != nil ==> sepC(cm(b, v / 65536), cm(b, k)) && sepC(cm(b, k), cm(b, v / 65536))
 //@   ensures bmSep(b)
 //@   ensures result <==> old(bmem(b, v))
+//@   ensures forall k :: cm(b, k) != nil ==> cm(b, k).$bm.ref == 0 || fresh(cm(b, k).$bm) || (old(cm(b, k)) != nil && cm(b, k).$bm.ref == old(cm(b, k).$bm.ref))
 //@   ensures !bmem(b, v)
 //@   ensures forall x :: u64(x) && x != v ==> (bmem(b, x) <==> old(bmem(b, x)))
 
@@ -133,4 +134,50 @@ package roaring
 //@   loop 1 invariant $i == -1 ==> !changed && (bmem(b, a[0]) <==> old(bmem(b, a[0]))) && (forall x :: u64(x) ==> (bmem(b, x) <==> old(bmem(b, x)))) && (cm(b, a[0] / 65536) != nil ==> roomOK(cm(b, a[0] / 65536)))
 //@   loop 1 invariant $i == 0 ==> (changed <==> !old(bmem(b, a[0])))
 //@   loop 1 invariant $i == 0 ==> bmem(b, a[0])
+//@   loop 1 invariant $i == 0 ==> (forall x :: u64(x) && x != a[0] ==> (bmem(b, x) <==> old(bmem(b, x))))
+
+// op.apply restricted to single-value remove records (the only kind Bitmap.Remove
+// builds): the record's type selects b.remove, so apply inherits its contract.  The
+// general (trusted, coarse) contract of op.apply stays in use for op-log replay.
+//@ contract (*op).apply#remove props C01,C02,C07,C10,C12,C28
+//@   requires op != nil && op.typ == opTypeRemove && bmWF(b) && bmSep(b)
+//@   modifies b.Containers.$m, sliceContainers.*, bTreeContainers.*, tree.*, elemtype *Container, cm(b, op.value / 65536).flags, cm(b, op.value / 65536).pointer, cm(b, op.value / 65536).len, cm(b, op.value / 65536).cap, cm(b, op.value / 65536).data, cm(b, op.value / 65536).typeID, cm(b, op.value / 65536).n, cm(b, op.value / 65536).$arr, cm(b, op.value / 65536).$runs, cm(b, op.value / 65536).$bm, elems(cm(b, op.value / 65536).$arr), elems(cm(b, op.value / 65536).$runs), elems(cm(b, op.value / 65536).$bm)
+//@   requires cm(b, op.value / 65536) != nil ==> roomOK(cm(b, op.value / 65536))
+//@   requires cm(b, op.value / 65536) != nil ==> singleOK(cm(b, op.value / 65536))
+//@   ensures forall k :: k != op.value / 65536 ==> cm(b, k) == old(cm(b, k))
+//@   ensures forall k :: k != op.value / 65536 && cm(b, k) != nil ==> cm(b, k).typeID == old(cm(b, k).typeID) && cm(b, k).n == old(cm(b, k).n) && cm(b, k).$arr == old(cm(b, k).$arr) && cm(b, k).$runs == old(cm(b, k).$runs) && cm(b, k).$bm == old(cm(b, k).$bm)
+//@   ensures forall k :: k != op.value / 65536 && cm(b, k) != nil ==> unchanged(cm(b, k).$arr) && unchanged(cm(b, k).$runs) && unchanged(cm(b, k).$bm)
+//@   ensures cm(b, op.value / 65536) != nil ==> wfMut(cm(b, op.value / 65536)) && cm(b, op.value / 65536).n >= 1
+//@   ensures forall k :: k != op.value / 65536 && cm(b, k) != nil ==> wfMut(cm(b, k)) && cm(b, k).n >= 1
+//@   ensures bmWF(b)
+//@   ensures forall k :: k != op.value / 65536 && cm(b, k) != nil && cm(b, op.value / 65536) != nil ==> sepC(cm(b, op.value / 65536), cm(b, k)) && sepC(cm(b, k), cm(b, op.value / 65536))
+//@   ensures bmSep(b)
+//@   ensures changed <==> old(bmem(b, op.value))
+//@   ensures forall k :: cm(b, k) != nil ==> cm(b, k).$bm.ref == 0 || fresh(cm(b, k).$bm) || (old(cm(b, k)) != nil && cm(b, k).$bm.ref == old(cm(b, k).$bm.ref))
+//@   ensures !bmem(b, op.value)
+//@   ensures forall x :: u64(x) && x != op.value ==> (bmem(b, x) <==> old(bmem(b, x)))
+
+// ---- Remove: op log record + op.apply#remove ---------------------------------------
+// The mirror image of Add: the abstract set loses a[0] and stays the set the containers
+// hold.  The target container additionally needs singleOK (a one-element bitmap or run
+// container really holds one value), the side condition of Container.remove.
+//@ contract (*Bitmap).Remove props C01,C02,C07,C10,C12,C28
+//@   variant (*op).apply#remove
+//@   requires bmWF(b) && bmSep(b) && coupled(b) && len(a) == 1 && u64(a[0])
+//@   requires cm(b, a[0] / 65536) != nil ==> roomOK(cm(b, a[0] / 65536)) && singleOK(cm(b, a[0] / 65536))
+//@   requires forall k :: cm(b, k) != nil ==> cm(b, k).$bm.ref != a.ref
+//@   modifies b.ops, b.opN, b.Containers.$m, sliceContainers.*, bTreeContainers.*, tree.*, elemtype *Container, cm(b, a[0] / 65536).flags, cm(b, a[0] / 65536).pointer, cm(b, a[0] / 65536).len, cm(b, a[0] / 65536).cap, cm(b, a[0] / 65536).data, cm(b, a[0] / 65536).typeID, cm(b, a[0] / 65536).n, cm(b, a[0] / 65536).$arr, cm(b, a[0] / 65536).$runs, cm(b, a[0] / 65536).$bm, elems(cm(b, a[0] / 65536).$arr), elems(cm(b, a[0] / 65536).$runs), elems(cm(b, a[0] / 65536).$bm)
+//@   ghostdef b.$set[x] := !(err == nil && x == a[0]) && old(b.$set[x])
+//@   ensures err == nil ==> !b.$set[a[0]] && (changed <==> old(b.$set[a[0]]))
+//@   ensures err == nil ==> (forall x :: x != a[0] ==> (b.$set[x] <==> old(b.$set[x])))
+//@   ensures err != nil ==> !changed && (forall x :: b.$set[x] <==> old(b.$set[x]))
+//@   ensures bmWF(b) && bmSep(b)
+//@   ensures coupled(b)
+//@   loop 1 invariant 0 <= $i + 1 && $i + 1 <= len(a) && unchanged(a) && bmWF(b) && bmSep(b)
+//@   loop 1 invariant forall k :: cm(b, k) != nil ==> cm(b, k).$bm.ref != a.ref
+//@   loop 1 invariant $i == -1 ==> (forall k :: cm(b, k) == old(cm(b, k)))
+//@   loop 1 invariant $i == -1 ==> (forall k :: cm(b, k) != nil ==> cm(b, k).$arr == old(cm(b, k).$arr) && cm(b, k).$runs == old(cm(b, k).$runs) && cm(b, k).$bm == old(cm(b, k).$bm))
+//@   loop 1 invariant $i == -1 ==> !changed && (bmem(b, a[0]) <==> old(bmem(b, a[0]))) && (forall x :: u64(x) ==> (bmem(b, x) <==> old(bmem(b, x)))) && (cm(b, a[0] / 65536) != nil ==> roomOK(cm(b, a[0] / 65536)) && singleOK(cm(b, a[0] / 65536)))
+//@   loop 1 invariant $i == 0 ==> (changed <==> old(bmem(b, a[0])))
+//@   loop 1 invariant $i == 0 ==> !bmem(b, a[0])
 //@   loop 1 invariant $i == 0 ==> (forall x :: u64(x) && x != a[0] ==> (bmem(b, x) <==> old(bmem(b, x))))
